@@ -600,4 +600,46 @@ theorem C03_posttag_only_without_version (c : VroCfg) (a : VroArgs) (d : Default
   · rw [hsplit]
     exact C03_named_request_never_falls_through C r pre e post hn he hpost
 
+/-! ## the VRO in force for a table line is the command's VRO as modified by that line only -/
+
+/-- Whatever the lines of a table ask for (`-k`, `-t tag`, `--vro`), (1) the command's VRO is the
+same after the table as before it, and (2) every line that is reached is resolved with the
+command's VRO as modified by *that* line — the earlier lines leave no trace. -/
+theorem C03_table_line_isolated (C : Ctx) (keep : Bool) (flavors vro : List Str) (lines : List TableLine) :
+    (runTable C keep flavors vro lines).vro = vro ∧
+    ∀ (i : Nat) (out : LineOut), (runTable C keep flavors vro lines).outs[i]? = some out →
+      ∃ l, lines[i]? = some l ∧ out = lineOutcome C keep flavors vro l := by
+  induction lines with
+  | nil => simp [runTable]
+  | cons l rest ih =>
+    obtain ⟨ih1, ih2⟩ := ih
+    unfold runTable
+    simp only
+    split
+    · refine ⟨rfl, ?_⟩
+      intro i out h
+      cases i with
+      | zero => simp at h; exact ⟨l, rfl, h.symm⟩
+      | succ i => simp at h
+    · refine ⟨ih1, ?_⟩
+      intro i out h
+      cases i with
+      | zero => simp at h; exact ⟨l, rfl, h.symm⟩
+      | succ i =>
+        simp only [List.getElem?_cons_succ] at h ⊢
+        exact ih2 i out h
+
+/-- non-vacuity: `setupRequired(-k p)` then `setupRequired(p)` again in the example database, with
+`p 1.0` already set up: the first line keeps 1.0, the second is answered by `current` (2.0), and
+the command's VRO has no `keep` afterwards -/
+def exLineKeep : TableLine :=
+  { name := sP, version := none, vexpr := none, lineVro := none, lineTags := [], lineKeep := true,
+    optional := false, already := some (⟨v10, sLinux, 0⟩, none) }
+def exLinePlain : TableLine := { exLineKeep with lineKeep := false }
+example :
+    (runTable exCtx false [sLinux, sGeneric] defaultVro [exLineKeep, exLinePlain]).outs
+      = [.setUp ⟨⟨v10, sLinux, 0⟩, kKeep, kKeep⟩, .setUp ⟨⟨v20, sLinux, 1⟩, sCurrent, sCurrent⟩] ∧
+    (runTable exCtx false [sLinux, sGeneric] defaultVro [exLineKeep, exLinePlain]).vro = defaultVro := by
+  decide
+
 end EupsModel.C03
